@@ -27,8 +27,15 @@ Definition x_execute := Runtime.execute.
 Definition x_cli_model := Cli.cli_model CliFacts.fatal_on_error CliFacts.fatal_only_if_strict.
 Definition x_cli_destination := Cli.destination.
 
+Definition x_undefined := Analyses.undefined_names.
+Definition x_unused := Analyses.unused_names.
+Definition x_duplicates := Analyses.duplicate_names.
+Definition x_leftrec := Analyses.leftrec_warnings.
+Definition x_reached := Analyses.reached_names.
+Definition x_closed_b := Analyses.closed_b.
+
 Extraction "pegmodel.ml"
-  x_cli_model x_cli_destination
+  x_undefined x_unused x_duplicates x_leftrec x_reached x_closed_b x_cli_model x_cli_destination
   x_set_run x_set_has x_set_len x_set_elements x_set_intersects x_set_equal
   x_mk_opts x_run_history x_spec_parse x_first_furthest x_flat x_zero_state
   x_inline_table x_asu_rule x_count_rules x_execute.
